@@ -311,7 +311,12 @@ fn reference(c: &Case, before: &Obs) -> Expect {
         if best.len() != 1 {
             ambiguous = true;
         }
-        erbest[p] = Some(ks[best[0]]);
+        // the topology part of the comparison is not transitive: three candidates can beat each
+        // other in a circle, and then the standard prescribes no single winner
+        let Some(&b0) = best.first() else {
+            return Expect { states: vec![], ds: None, ambiguous: true, decisions: vec![] };
+        };
+        erbest[p] = Some(ks[b0]);
     }
     // Ebest over ports that take part (not master-only, not faulty)
     let part: Vec<usize> = (0..c.n_ports).filter(|&p| !c.master_only[p] && before.states[p] != St::Faulty && erbest[p].is_some()).collect();
@@ -323,7 +328,10 @@ fn reference(c: &Case, before: &Obs) -> Expect {
         if best.len() != 1 {
             ambiguous = true;
         }
-        Some(erbest[part[best[0]]].unwrap())
+        let Some(&b0) = best.first() else {
+            return Expect { states: vec![], ds: None, ambiguous: true, decisions: vec![] };
+        };
+        Some(erbest[part[b0]].unwrap())
     };
     let mut decisions = vec![];
     let mut states = vec![];
